@@ -16,7 +16,8 @@ is/hail/expr/ir/Parser.scala and is/hail/utils/StringEscapeUtils.scala; nothing 
       be in (a) the engine lexer's quotedLiteral language (escapeChars extracted from Parser.scala), (b) for escape_parsable also the
       Python grammar's `escaped_identifier` (which must be prefix-free so that PEG matching is exact).
   R3  unescape_parsable inverts escape_parsable, unit kind by unit kind: the decoder is read as a chain of symbolic transducers
-      (.replace / regex .sub with a template, lambda or function replacement / the unicode_escape codec, modelled natively) and every
+      (.replace / regex .sub with a template, lambda or function replacement / the unicode_escape codec, modelled natively / one hand-written
+      character loop: index scanner or state machine) and every
       unit's text, followed by an arbitrary continuation, must come back as exactly the character, the scan stopping exactly at the
       unit's end (ordered leftmost-first matching and the replacement function are evaluated on symbolic texts - constants, the
       character, its hex digits, the following characters as sets - with explicit case splits; a violation carries a code point and
@@ -887,7 +888,10 @@ class EscapeStr:
                     v = pf.expand_locals(fn, st.value)
                     if isinstance(v, ast.Call) and pf.dotted(v.func) == 'str' and len(v.args) == 1 and not v.keywords:
                         v = v.args[0]
-                    if not (isinstance(v, ast.Name) and v.id == param):
+                    cst = pf.const_str(v)
+                    if cst is not None and R.included(reach, R.lang(R.lit(cst), 'the constant')) is None:
+                        pass  # a constant returned for exactly that string: the string itself
+                    elif not (isinstance(v, ast.Name) and v.id == param):
                         raise AnalysisError(f'{where}: early exit `{pf.nsrc(st)[:60]}` in front of the loop does not return the string itself; not modelled')
                     if R.shortest(reach) is not None:
                         out.append((reach, 'identity', path, st.lineno))
@@ -3753,6 +3757,11 @@ def _run_lexical(ctx: Ctx, state: Dict[str, Any]) -> None:
                                     f'but unescape_parsable does not undo it: {v.message}; {back}. The name {ascii(nm)} is printed as {ascii(printed_nm)} and does not come back '
                                     f'unchanged, so parsing the printed type yields a different type', mj.path, une.lineno,
                         extra={'decoder': [list(map(str, o)) for o in usummary], 'witness_code_point': v.cp, 'follow': v.follow})
+        for stg in stages:
+            for note in getattr(stg, 'notes', []):
+                if note == 'unknown escape kept':
+                    ctx.info(f'unescape_parsable: {stg.desc} meets an escape the unicode_escape codec does not know (kept as it is, DeprecationWarning "invalid escape '
+                             'sequence"); the round trip is decided with that behaviour')
     except AnalysisError as e:
         undecided.append(str(e))
     if undecided:
